@@ -182,7 +182,7 @@ func genC16(t *Tape, tier string) *Scenario {
 	if !x.Slow && !x.SlowVerdict && t.Chance(1, 8) {
 		// fault stratum: the exchange is broken off somewhere; the client may report
 		// anything but a success the backend did not grant
-		x.Fault = 1 + t.Intn(4)
+		x.Fault = 1 + t.Intn(5)
 		nrep := 3 + len(x.Rcpts) // greeting, hello, MAIL, RCPTs; then 354 and the final replies
 		switch x.Fault {
 		case 1:
@@ -192,6 +192,10 @@ func genC16(t *Tape, tier string) *Scenario {
 			sc.BE.Conns[0].Data[0].PanicWhen = t.Intn(3)
 		case 3:
 			cs.SrvFaults.FailWriteAt = 1 + t.Intn(nrep+2)
+		case 5:
+			// the client's own writes start to fail: a command, a flush in the middle of the
+			// message, or the end marker never leaves
+			cs.CliFailWriteAt = 1 + t.Intn(nrep+4)
 		default:
 			cs.SrvFaults.BlockWriteAt = 1 + t.Intn(nrep+2)
 			sc.Srv.WriteTO = 0
@@ -386,7 +390,7 @@ func classifyC16(sc *Scenario, h *History, st *Stats) string {
 		st.Faults["backend_verdict_later_than_CommandTimeout"]++
 	}
 	if x.Fault > 0 {
-		st.Faults["exchange_broken_off_"+[]string{"", "by_Server.Close", "by_backend_panic", "by_failing_reply_write", "by_blocked_reply_write"}[x.Fault]]++
+		st.Faults["exchange_broken_off_"+[]string{"", "by_Server.Close", "by_backend_panic", "by_failing_reply_write", "by_blocked_reply_write", "by_failing_client_write"}[x.Fault]]++
 		if r := h.Conns[0].Client; r != nil && len(r.Results) > x.DataOp {
 			if d := r.Results[x.DataOp]; d.Begin != 0 && (d.Err != "" || d.DataErr != "" || d.WriteErr != "") {
 				st.Probes["client_reports_failure_of_broken_exchange"]++
@@ -403,7 +407,7 @@ func classifyC16(sc *Scenario, h *History, st *Stats) string {
 func init() {
 	register(&Property{
 		ID: "C16", Level: "exploration",
-		Rule:     "real smtp.Client (NewClient/NewClientLMTP, Mail, Rcpt x1-3, Data or LMTPData, Close twice, Noop, Quit) against the real smtp.Server over the simulated transport; body = every string over the tokens {'.', LF, CRLF, x} up to length 7 (sweep; sampled in quick) or a seeded 8-bit body up to ~9000 octets with CR only inside CRLF and embedded end-of-data look-alikes; partition into Write calls: one, every 2-split, byte-wise, random sizes; backend verdict accept/reject; the transport re-cuts the client's writes into drawn segment sizes. Non-trivial: the body has a line starting with '.', a bare LF, a look-alike, or no final newline; distinct by (class string of the body, partition, mode, verdict, callback, recipients). Replies re-cut by the network; a slow producer (6 min between writes) under WriteTimeout 0/30 s/10 min; a fault stratum in which the exchange is broken off (Server.Close, backend panic, failing or blocked reply writes) and only 'no success the backend did not grant, no call outlasting the client's time limits' is judged.",
+		Rule:     "real smtp.Client (NewClient/NewClientLMTP, Mail, Rcpt x1-3, Data or LMTPData, Close twice, Noop, Quit) against the real smtp.Server over the simulated transport; body = every string over the tokens {'.', LF, CRLF, x} up to length 7 (sweep; sampled in quick) or a seeded 8-bit body up to ~9000 octets with CR only inside CRLF and embedded end-of-data look-alikes; partition into Write calls: one, every 2-split, byte-wise, random sizes; backend verdict accept/reject; the transport re-cuts the client's writes into drawn segment sizes. Non-trivial: the body has a line starting with '.', a bare LF, a look-alike, or no final newline; distinct by (class string of the body, partition, mode, verdict, callback, recipients). Replies re-cut by the network; a slow producer (6 min between writes) under WriteTimeout 0/30 s/10 min; a fault stratum in which the exchange is broken off (Server.Close, backend panic, failing or blocked reply writes, failing writes of the client itself) and only 'no success the backend did not grant, no call outlasting the client's time limits' is judged.",
 		Gen:      genC16,
 		Check:    checkC16,
 		Classify: classifyC16,
